@@ -8,10 +8,12 @@ from logging import Logger
 from typing import Dict, Optional, Set, Tuple
 
 from aiocoap.transports import rfc8323common
-from aiocoap import interfaces, error, util
+from aiocoap import interfaces, error, util, optiontypes
 from aiocoap import COAP_PORT, Message
 from aiocoap import defaults
 from aiocoap.message import Direction
+from aiocoap.numbers.optionnumbers import OptionNumber
+from aiocoap.options import _read_extended_field_value
 
 
 def _extract_message_size(data: bytes):
@@ -47,6 +49,32 @@ def _extract_message_size(data: bytes):
     return tokenoffset, tkl, length
 
 
+def _decode_signalling_options(msg: Message, rawdata: bytes) -> bytes:
+    """Fill msg.opt with the options at the start of rawdata and return the
+    payload, like :meth:`.Options.decode` does -- but keep all values as opaque
+    bytes.
+
+    The option numbers of a signalling message are specific to its code (RFC
+    8323 Section 5.2). They must not be read in the formats that options of
+    requests and responses with the same numbers have: a value that is not
+    valid there (eg. non-UTF-8 bytes in option 8, which is Location-Path in
+    requests and responses) does not make a signalling message unparsable."""
+    number = OptionNumber(0)
+
+    while rawdata:
+        if rawdata[0] == 0xFF:
+            return rawdata[1:]
+        dllen = rawdata[0]
+        (delta, rawdata) = _read_extended_field_value(dllen >> 4, rawdata[1:])
+        (length, rawdata) = _read_extended_field_value(dllen & 0x0F, rawdata)
+        number += delta
+        if len(rawdata) < length:
+            raise error.UnparsableMessage("Option announced but absent")
+        msg.opt.add_option(optiontypes.OpaqueOption(number, rawdata[:length]))
+        rawdata = rawdata[length:]
+    return b""
+
+
 def _decode_message(data: bytes) -> Message:
     tokenoffset, tkl, _ = _extract_message_size(data)
     if tkl > 8:
@@ -56,7 +84,10 @@ def _decode_message(data: bytes) -> Message:
 
     msg = Message(code=code, _token=token)
 
-    msg.payload = msg.opt.decode(data[tokenoffset + tkl :])
+    if msg.code.is_signalling():
+        msg.payload = _decode_signalling_options(msg, data[tokenoffset + tkl :])
+    else:
+        msg.payload = msg.opt.decode(data[tokenoffset + tkl :])
     msg.direction = Direction.INCOMING
 
     return msg
